@@ -5,18 +5,27 @@ use crate::gen::GameParams;
 use crate::props::*;
 use crate::runner::Leg;
 
-const MIX: GameParams = GameParams { max_ops: 120, w_setup: 1, w_pos: 6, w_small: 3, w_frozen: 0 };
-const MIX_LONGSETUP: GameParams = GameParams { max_ops: 160, w_setup: 4, w_pos: 4, w_small: 2, w_frozen: 0 };
-const SETUP_ONLY: GameParams = GameParams { max_ops: 40, w_setup: 1, w_pos: 0, w_small: 0, w_frozen: 0 };
-const SMALL: GameParams = GameParams { max_ops: 240, w_setup: 0, w_pos: 1, w_small: 8, w_frozen: 0 };
-const FROZEN: GameParams = GameParams { max_ops: 240, w_setup: 0, w_pos: 0, w_small: 1, w_frozen: 6 };
-const POS_ONLY: GameParams = GameParams { max_ops: 40, w_setup: 0, w_pos: 7, w_small: 3, w_frozen: 0 };
+const MIX: GameParams = GameParams { max_ops: 120, w_setup: 1, w_pos: 6, w_small: 3, w_frozen: 0, hanging: false };
+const MIX_LONGSETUP: GameParams = GameParams { max_ops: 160, w_setup: 4, w_pos: 4, w_small: 2, w_frozen: 0, hanging: false };
+const SETUP_ONLY: GameParams = GameParams { max_ops: 40, w_setup: 1, w_pos: 0, w_small: 0, w_frozen: 0, hanging: false };
+const SMALL: GameParams = GameParams { max_ops: 240, w_setup: 0, w_pos: 1, w_small: 8, w_frozen: 0, hanging: false };
+const FROZEN: GameParams = GameParams { max_ops: 240, w_setup: 0, w_pos: 0, w_small: 1, w_frozen: 6, hanging: false };
+const POS_ONLY: GameParams = GameParams { max_ops: 40, w_setup: 0, w_pos: 7, w_small: 3, w_frozen: 0, hanging: false };
 
 const TREE: ExpandOpts = ExpandOpts { caps: [0, 10, 5], rate: 40, max_nodes: 6000 };
+const TREE_CYCLE: ExpandOpts = ExpandOpts { caps: [0, 8, 4], rate: 48, max_nodes: 4000 };
 const TREE_LIGHT: ExpandOpts = ExpandOpts { caps: [0, 6, 3], rate: 24, max_nodes: 2500 };
 
+const fn wi(profile: Profile, expand: Option<ExpandOpts>) -> WalkOpts {
+    WalkOpts { profile, expand, follow_norep: false, inject: crate::drive::Inject::Auto }
+}
+
+const fn wn(profile: Profile) -> WalkOpts {
+    WalkOpts { profile, expand: None, follow_norep: true, inject: crate::drive::Inject::No }
+}
+
 const fn w(profile: Profile, expand: Option<ExpandOpts>) -> WalkOpts {
-    WalkOpts { profile, expand }
+    WalkOpts { profile, expand, follow_norep: false, inject: crate::drive::Inject::No }
 }
 
 macro_rules! leg {
@@ -51,7 +60,21 @@ pub fn observer_for(id: &str) -> Option<fn() -> Box<dyn Obs>> {
     })
 }
 
+/// Properties whose text covers a start position with a piece hanging on a trap (C10: "once any
+/// action has been applied no piece stands on a trap square without an adjacent friendly piece").
+const HANGING_OK: [&str; 9] = ["C02", "C03", "C05", "C06", "C08", "C10", "C14", "C15", "C19"];
+
 pub fn legs(id: &str) -> Vec<Leg> {
+    let mut v = legs_base(id);
+    if HANGING_OK.contains(&id) {
+        for l in v.iter_mut() {
+            l.params.hanging = true;
+        }
+    }
+    v
+}
+
+fn legs_base(id: &str) -> Vec<Leg> {
     let mk = match observer_for(id) {
         Some(m) => m,
         None => return vec![],
@@ -78,6 +101,11 @@ pub fn legs(id: &str) -> Vec<Leg> {
             leg!("games_normal", MIX, w(Profile::Normal, None), 2400, 72000, 1500, mk),
             leg!("small_fight", SMALL, w(Profile::Fight, None), 2000, 60000, 1000, mk),
             leg!("near_immobile_cycle", FROZEN, w(Profile::Cycle, None), 5000, 150000, 1000, mk),
+            leg!("small_cycle_tree", SMALL, w(Profile::Cycle, Some(TREE_CYCLE)), 150, 4500, 600, mk),
+            leg!("near_immobile_cycle_tree", FROZEN, w(Profile::Cycle, Some(TREE_CYCLE)), 100, 3000, 600, mk),
+            leg!("injected_history_normal", MIX, wi(Profile::Normal, None), 600, 18000, 600, mk),
+            leg!("injected_history_fight", MIX, wi(Profile::Fight, None), 400, 12000, 600, mk),
+            leg!("injected_history_near_immobile", FROZEN, wi(Profile::Cycle, None), 1500, 45000, 600, mk),
         ],
         "C08" => vec![
             leg!("games_normal", MIX_LONGSETUP, w(Profile::Normal, None), 3000, 90000, 1500, mk),
@@ -114,6 +142,7 @@ pub fn legs(id: &str) -> Vec<Leg> {
             leg!("games_normal", MIX_LONGSETUP, w(Profile::Normal, None), 400, 12000, 1500, mk),
             leg!("games_fight_tree", MIX, w(Profile::Fight, Some(TREE_LIGHT)), 150, 4500, 500, mk),
             leg!("small_cycle", SMALL, w(Profile::Cycle, None), 400, 12000, 1000, mk),
+            leg!("small_cycle_through_withheld_actions", SMALL, wn(Profile::Cycle), 600, 18000, 1000, mk),
         ],
         _ => vec![],
     }
